@@ -401,7 +401,9 @@ func c09ctx(p *Program, r *Report, rule string) {
 		if fn := p.Func("Conn.writeClose"); fn != nil {
 			p.forAllPaths(r, rule, fn, "close frames without a caller context", Opts{}, "writeClose(code, reason) is writeCloseCtx(context.Background(), code, reason): bounded by the 5 s of writeCloseCtx alone", func(pa *Path) (bool, string) {
 				wc := pa.Calls("Conn.writeCloseCtx")
-				if len(wc) != 1 || !isBackground(wc[0].Args[1]) || argKey(wc[0], 2) != "param:code" || argKey(wc[0], 3) != "param:reason" || pa.Ret[0].Key() != wc[0].Res.Key() {
+				// writeClose folded into its only caller: the call is what remains of it (the caller goes on after it)
+				inCaller := p.absorbed["Conn.writeClose"] == fn
+				if len(wc) != 1 || !isBackground(wc[0].Args[1]) || argKey(wc[0], 2) != "param:code" || argKey(wc[0], 3) != "param:reason" || (!inCaller && pa.Ret[0].Key() != wc[0].Res.Key()) {
 					return false, "writeClose does not forward to writeCloseCtx(context.Background(), code, reason)"
 				}
 				return true, ""
